@@ -295,6 +295,9 @@ def gen_cases(rec, rng, tier):
         RPg = pdag.helper_names_with_gaps(rng, RP)
         if RPg is not None:
             yield {'cls': 'helper_state_names_with_gaps', 'ref': RPg, 'n': n, 'eps': ''}
+        RPx = pdag.exotic_names(rng, RP, allow_quote=False)     # the grammar's variable names are built as p'q
+        if RPx is not None:
+            yield {'cls': 'exotic_state_names', 'ref': RPx, 'n': n, 'eps': ''}
         RPe = pdag.empty_stack_acceptor(rng)
         yield {'cls': 'accepts_on_empty_stack', 'ref': RPe, 'n': n, 'eps': rng.choice(['', '_'])}
         if rng.random() < 0.4:
